@@ -9,60 +9,68 @@
    lo_of / hi_of = the smallest / largest element of such a list.
    All theorems hold for BOTH directions, all lengths, all spacings, all query values.
    Binary64 rounding of the fractional index within a few ulp of an edge is outside this exact
-   model (known finding C16-float-edge, decided by the rational oracle of the harness). *)
-From PNC Require Import Base.Util Model.Val2idx Proofs.Val2idxProofs.
+   model (former finding C16-float-edge, repaired by faed7f7; the float stream is decided by the rational oracle of the harness). *)
+From PNC Require Import Base.Util Gen.Val2idxSrc Model.Val2idx Proofs.Val2idxProofs.
 Local Open Scope Z_scope.
+
+(* cell_gen bs / impl_val2idx_gen bs: bs says how the bounds path finds the cell inside the domain —
+   false: truncating the interpolated index; true: comparing with the edges (searchsorted,
+   fixes/C16-val2idx-bounds-exact-cell.patch).  Which one the code does is regenerated from the source
+   on every run (Gen/Val2idxSrc.v, tie T); every theorem below holds for BOTH. *)
+Theorem C16_model_follows_source : impl_val2idx = impl_val2idx_gen Gen.Val2idxSrc.bounds_by_search.
+Proof. reflexivity. Qed.
+Print Assumptions C16_model_follows_source.
 
 (* 'nearest': the reported index is valid and no coordinate value is closer.  The only other
    outcomes concern values outside the coordinate range on a side whose fill is nan: masked
    (clean='mask') or the nan->int cast (clean='none'), never a cell index. *)
-Theorem C16_nearest_correct : forall dsc cm lnan rnan cs de x,
+Theorem C16_nearest_correct : forall bs dsc cm lnan rnan cs de x,
   mono dsc cs = true -> cs <> [] ->
-  match cell_one MNearest cm lnan rnan dsc cs de x with
+  match cell_gen bs MNearest cm lnan rnan dsc cs de x with
   | Idx i => nearest_ok cs x i = true
              \/ (i = INT_MIN /\ cm <> CMask /\ nan_out lnan rnan (lo_of dsc cs) (hi_of dsc cs) x)
   | Masked => cm = CMask /\ nan_out lnan rnan (lo_of dsc cs) (hi_of dsc cs) x
   end.
-Proof. exact nearest_both. Qed.
+Proof. exact nearest_gen. Qed.
 Print Assumptions C16_nearest_correct.
 
 (* 'bounds', edge list es (n+1 edges for n cells) in either direction, EVERY query value incl.
    both outer edges: the reported cell's edges contain the value; a value below / above the
    domain is clamped to the cell at that end only when left / right = None, masked when the
    fill is nan and clean='mask', and is otherwise the nan->int cast (never a cell index). *)
-Theorem C16_bounds_correct : forall dsc cm lnan rnan dv es x,
+Theorem C16_bounds_correct : forall bs dsc cm lnan rnan dv es x,
   mono dsc es = true -> length es = S (length dv) -> (0 < length dv)%nat ->
-  match cell_one MBounds cm lnan rnan dsc dv es x with
+  match cell_gen bs MBounds cm lnan rnan dsc dv es x with
   | Idx i => contains (pairs es) x i = true
        \/ (x < lo_of dsc es /\ lnan = false /\ i = (if dsc then lenZ dv - 1 else 0))
        \/ (hi_of dsc es < x /\ rnan = false /\ i = (if dsc then 0 else lenZ dv - 1))
        \/ (i = INT_MIN /\ cm <> CMask /\ nan_out lnan rnan (lo_of dsc es) (hi_of dsc es) x)
   | Masked => cm = CMask /\ nan_out lnan rnan (lo_of dsc es) (hi_of dsc es) x
   end.
-Proof. exact bounds_both. Qed.
+Proof. exact bounds_gen. Qed.
 Print Assumptions C16_bounds_correct.
 
 (* 'exact': an index is reported iff the value equals that coordinate value, everything else
    is masked (scalar or array val alike) *)
-Theorem C16_exact_correct : forall dsc cm lnan rnan cs de x,
+Theorem C16_exact_correct : forall bs dsc cm lnan rnan cs de x,
   mono dsc cs = true -> cs <> [] ->
-  match cell_one MExact cm lnan rnan dsc cs de x with
+  match cell_gen bs MExact cm lnan rnan dsc cs de x with
   | Idx i => exact_ok cs x i = true
   | Masked => memZ x cs = false
   end.
-Proof. exact exact_both. Qed.
+Proof. exact exact_gen. Qed.
 Print Assumptions C16_exact_correct.
 
 (* The whole call on a monotonic edge/coordinate list: every element of the result is the
    per-value cell of the three theorems above; the out-of-bounds warning is issued iff
    bounds='warn' and some value lies outside [smallest edge, largest edge]; ValueError is raised
    iff bounds='error' and some value lies outside; nothing else is raised. *)
-Theorem C16_out_of_range_warned_or_rejected : forall c xs s dv de dsc,
+Theorem C16_out_of_range_warned_or_rejected : forall bs c xs s dv de dsc,
   bad_opts c = false -> prep c = inr (s, dv, de) -> mono dsc de = true -> (2 <= length de)%nat ->
   let xs' := map (Z.mul s) xs in
-  let cells := map (cell_one (c_m c) (c_c c) (c_lnan c) (c_rnan c) dsc dv de) xs' in
+  let cells := map (cell_gen bs (c_m c) (c_c c) (c_lnan c) (c_rnan c) dsc dv de) xs' in
   let out := existsb (fun x => (x <? lo_of dsc de) || (hi_of dsc de <? x)) xs' in
-  impl_val2idx c xs =
+  impl_val2idx_gen bs c xs =
   match c_b c with
   | BError => if out then Raised EOutOfBounds else Done cells false dv
   | BWarn => Done cells out dv
@@ -72,8 +80,8 @@ Proof. exact impl_form. Qed.
 Print Assumptions C16_out_of_range_warned_or_rejected.
 
 (* a lookup never changes the coordinate variable (any options, any input) *)
-Theorem C16_coordinate_unchanged : forall c xs r w co,
-  impl_val2idx c xs = Done r w co -> co = map (Z.mul (scale_of c)) (c_cs c).
+Theorem C16_coordinate_unchanged : forall bs c xs r w co,
+  impl_val2idx_gen bs c xs = Done r w co -> co = map (Z.mul (scale_of c)) (c_cs c).
 Proof. exact coord_unchanged. Qed.
 Print Assumptions C16_coordinate_unchanged.
 
@@ -101,6 +109,10 @@ Example C16_hyp_inhabited :
   /\ cell_one MBounds CMask true true true [40; 4; -1; -7] [58; 22; 1; -4; -10] 21 = Idx 1
   /\ cell_one MExact CMask false false true [40; 4; -1; -7] [] 4 = Idx 1
   /\ cell_one MExact CMask false false false [-7; -1; 4; 40] [] 5 = Masked
+  /\ cell_gen true MBounds CMask true true false [-7; -1; 4; 40] [-10; -4; 1; 22; 58] 21 = Idx 2
+  /\ cell_gen true MBounds CMask true true true [40; 4; -1; -7] [58; 22; 1; -4; -10] 22 = Idx 0
+  /\ cell_gen false MBounds CMask true true true [40; 4; -1; -7] [58; 22; 1; -4; -10] 22 = Idx 1
+  /\ cell_gen true MBounds CMask true true false [-7; -1; 4; 40] [-10; -4; 1; 22; 58] 58 = Idx 3
   /\ dom0 (Cfg MBounds BWarn CMask false false [-7; -1; 4; 40] (Rows [(-10, -4); (-4, 1); (1, 22); (22, 58)])) = true
   /\ impl_val2idx (Cfg MBounds BWarn CMask false false [-7; -1; 4; 40] (Rows [(-10, -4); (-4, 1); (1, 22); (22, 58)])) [0; 58; 60]
      = Done [Idx 1; Idx 3; Idx 3] true [-7; -1; 4; 40]
